@@ -41,13 +41,13 @@ pub fn dims(rng: &mut Rng, max: u64) -> usize {
 /// A sparse matrix for pivot search: several families, because uniformly random matrices
 /// under-represent long dependency chains.
 pub fn gen_matrix(rng: &mut Rng, ring: &str) -> Value {
-    let family = rng.below(10);
+    let family = rng.below(14);
     let (m, n) = (dims(rng, 24), dims(rng, 24));
     let mut entries: Vec<Value> = vec![];
     match family {
         0..=4 => {
             // random sparse
-            let dens = *rng.pick(&[5u64, 10, 15, 25, 40]);
+            let dens = *rng.pick(&[5u64, 10, 15, 25, 40, 55, 70]);
             let unit_bias = *rng.pick(&[30u64, 60, 90]);
             for i in 0..m {
                 for j in 0..n {
@@ -109,6 +109,25 @@ pub fn gen_matrix(rng: &mut Rng, ring: &str) -> Value {
                 entries.push(json!([eidx(a, b), t, pos]));
             }
             return json!({ "m": edges.len(), "n": tris.len(), "entries": entries });
+        }
+        10..=13 => {
+            // "phase-3 heavy": every row starts in column 0 (so the first sequential phase finds one
+            // pivot), rows are dense enough that the second sequential phase occupies all columns
+            // after a few picks; the remaining rows race in the parallel cycle-free search.
+            let (m, n) = (6 + rng.below(19) as usize, 5 + rng.below(16) as usize);
+            let dens = *rng.pick(&[20u64, 35, 50]);
+            let head_unit = rng.chance(1, 3);
+            for i in 0..m {
+                entries.push(json!([i, 0, gen_val(rng, ring, if head_unit { 1 } else { 3 })]));
+                for j in 1..n {
+                    if rng.below(100) < dens {
+                        let kind = if rng.chance(4, 5) { 1 } else { 0 };
+                        entries.push(json!([i, j, gen_val(rng, ring, kind)]));
+                    }
+                }
+            }
+            entries.retain(|e| !is_zero_val(ring, &e[2]));
+            return json!({ "m": m, "n": n, "entries": entries });
         }
         _ => {
             // block diagonal with dense-ish blocks, permuted
